@@ -634,7 +634,13 @@ def c_iop(case, op):
 def c_hop(case, op):
     k = op[0]
     if k == 'set':
-        return 'Set_ %d %s %s' % (op[1], cbool(op[2] == 'ok'), c_rows(cells(make_batch(case, op[3], op[2]))))
+        x = make_batch(case, op[3], op[2])
+        if op[2] == 'baddtype':
+            # an append refuses it whatever it holds; where the position already exists in the file (possible after a
+            # `del` on a closed store, which lowers n_batches and leaves the file as it was) the memmap assignment
+            # converts the values to the store's dtype, so those are the cells the operation carries
+            x = x.astype(np.dtype(case['dtype']))
+        return 'Set_ %d %s %s' % (op[1], cbool(op[2] == 'ok'), c_rows(cells(x)))
     if k == 'del':
         return 'Del %d' % op[1]
     if k == 'read':
@@ -787,7 +793,10 @@ class C06(PropCheck):
                     ops.append(['del', r.randrange(nb - 1)])
                 elif b == 'delpast':
                     ops.append(['del', nb + r.randint(0, 1)])
-                elif b == 'shape':
+                elif b == 'shape' and not any(o[0] == 'close' for o in ops):
+                    # only where position nb is certainly an append: after a close, a `del` lowers n_batches and leaves
+                    # the file as it was, position nb then exists in the file and the assignment through the memmap
+                    # raises for a wrong shape, which Set_ does not describe (it carries cells, not a shape)
                     ops.append(['set', nb, 'badshape', vals()])
                 else:
                     ops.append(['set', nb, 'baddtype', vals()])
